@@ -118,6 +118,8 @@ type Contract struct {
 	Uses         []string            // lemmas / axioms assumed while verifying this function
 	Dispatch     map[string][]string // interface type name -> allowed dynamic types (proved at each invoke)
 	Recovers     bool                // the function must call the builtin recover() directly (it is meant to run deferred)
+	Bounded      string          // name of the bounded stand-in harness (no deductive verification of this function)
+	BoundedWhy   string
 	PanicAssumed bool                // trusted contracts only: panic(...) sites of the body are assumed unreachable (listed as an assumption)
 	Defers       []string            // functions this function must defer unconditionally (in its entry block)
 }
@@ -586,6 +588,15 @@ func (db *SpecDB) loadText(path, text, pkgHint string) error {
 					alts = append(alts, strings.TrimSpace(a))
 				}
 				cur.Dispatch[strings.TrimSpace(rest[:col])] = alts
+			case "bounded":
+				// `bounded <harness> <reason>`: the function is outside the contracts' reach; a bounded, exhaustive
+				// small-scope run of the real code (/verif/bounded/<harness>_test.go) stands in — never counted as proved
+				f := strings.Fields(rest)
+				if len(f) > 0 {
+					cur.Bounded = f[0]
+					cur.BoundedWhy = strings.TrimSpace(strings.TrimPrefix(rest, f[0]))
+					cur.ModAll = true
+				}
 			case "panic-assumed-unreachable":
 				cur.PanicAssumed = true
 			case "recovers":
